@@ -678,6 +678,9 @@ func checkNameKey(c *core.Ctx, l *core.Ledger, rule string) {
 			default:
 				return
 			}
+			if _, isLocal := m.(*ssa.MakeMap); isLocal {
+				return // a map made in this call holds the definitions of one call only
+			}
 			ks := core.Sym(key)
 			tag := fmt.Sprintf("$%d.Name", specParam)
 			if !strings.Contains(ks, tag) {
